@@ -4,6 +4,10 @@ import vlib
 from checks import semcommon
 
 PROP = "C11"
+KF_SHARED = "C11-shared-allof-type-compiled-in-place"
+KF_SHARED_TEXT = ("a user-type object with an allOf rule that was added to two roots is expanded in place by the first root that compiles: a root that lacks the "
+                  "inherited type (@item = '{ // {allOf: \"@base\"} \"id\": 1 }' in s5 without @base, in s6 with it) fails with 1302 when it compiles first "
+                  "but compiles when s6 compiled before it; compiler_all_of.go processNode / extendWith (same root cause as the C12 finding)")
 
 
 def run(tier, argv):
@@ -15,14 +19,19 @@ def run(tier, argv):
     L = "3" if quick else "4"
     r = vlib.tlc(work, "Life", "Life.cfg", consts={"MaxLen": L}, to_file=raw, timeout=6000, heap="24g")
     rep.add_tlc(r, "Life: all histories of length %s over 51 operation instances (NoHistoryNeeded; cursor expectations)" % L)
+    raws = work.path("gen-shared.txt")
+    Ls = "4" if quick else "5"
+    r = vlib.tlc(work, "Life", "Life.cfg", consts={"MaxLen": Ls, "World": '"shared"'}, to_file=raws, timeout=6000, heap="24g")
+    rep.add_tlc(r, "Life, shared world: all histories of length %s over two roots holding the same user-type object (one of them fails to compile)" % Ls)
     cases, docs = work.path("cases.ndjson"), work.path("docs.json")
     n = 0
     with open(cases, "w") as f:
-        for l in vlib.tagged_file(raw, "@@CASE"):
-            f.write(l + "\n")
-            n += 1
-            if n % 30000 == 11:
-                rep.sample(json.loads(l))
+        for src in (raw, raws):
+            for l in vlib.tagged_file(src, "@@CASE"):
+                f.write(l + "\n")
+                n += 1
+                if n % 30000 == 11:
+                    rep.sample(json.loads(l))
     for l in vlib.tagged_file(raw, "@@DOCS"):
         open(docs, "w").write(l)
     mm = work.path("mism.ndjson")
@@ -31,14 +40,29 @@ def run(tier, argv):
         raise vlib.Infra("c11replay failed: " + p.stderr.decode()[-2000:])
     s = semcommon.summary_of(p.stderr)
     rep.notes["replay"] = s
-    bad = list(vlib.read_ndjson(mm))
+    bad = []
+    kf = {f["id"] for f in vlib.known_findings(PROP) if f["status"] == "known"}
+    for m in vlib.read_ndjson(mm):
+        if m.get("predicted"):
+            if KF_SHARED in kf:
+                continue
+            m.pop("predicted")
+        bad.append(m)
+    if s.get("predicted_deviations", 0) > 0 and KF_SHARED in kf:
+        rep.known(KF_SHARED, KF_SHARED_TEXT, s["predicted_deviations"])
+    elif KF_SHARED in kf:
+        rep.drift.append("the recorded finding %s was not observed: the switch SharedTypeCompiledInPlace no longer describes the tree" % KF_SHARED)
+    # the requirement itself (switch off) predicts no deviation anywhere
+    rq = vlib.tlc(work, "Life", "LifeReq.cfg", consts={"MaxLen": "3", "World": '"shared"'}, timeout=3000)
+    rep.add_tlc(rq, "Life, shared world, switch off: NoDeviation")
     rep.cov["evaluations"] = s["steps"]
     rep.cov["distinct_nontrivial"] = s["histories"]
     rep.cov["traces_validated_against_impl"] = s["histories"]
     rep.cov["exhaustive"] = True
     rep.cov["rule"] = ("every history of exactly %s operations over 4 schemas (valid with types, invalid, optional recursion, overlapping key shortcuts), 3 fresh and 3 persistent "
                        "documents (valid, cut off, trailing garbage), an enum rule and a regex type; each step compared with the same call on fresh objects or with the "
-                       "lexeme TLC computed for the document cursor; returned slices / ASTs / lists re-read at the end" % L)
+                       "lexeme TLC computed for the document cursor; returned slices / ASTs / lists re-read at the end; "
+                       "plus every history of %s operations over two roots that hold the same user-type object, one of which cannot be compiled" % (L, Ls))
     bad += maporder_stage(work, rep, hbin, quick)
     return rep, bad
 
